@@ -1,6 +1,664 @@
-/- C19 - property theorems (stub: not built yet) -/
-import NotationModel.Model.C19
+/-
+C19 - Stored signatures round-trip byte-for-byte and stay with their artifact.
+Property theorems only; the model is in `Model/C19.lean`, the inductions over the history that
+relate the state machine to the declarative reading of a history are in `Lemmas/C19.lean`.
+
+Reading guide. A history `h : List Op` is newest-first. `stateOf h` is the state the model's
+`step` function reaches; `listObs mode (stateOf h) q` is `ListSignatures(q)` followed by
+`FetchSignatureBlob` of everything listed; `sigsFor q h` are the operations of the history that
+stored a signature manifest of exactly `q` (a successful `PushSignature` for `q`, or a directly
+written image / legacy artifact manifest with subject `q` and the notation artifact type).
+-/
+import NotationModel.Lemmas.C19
+
+set_option linter.unusedSimpArgs false
+set_option linter.unusedVariables false
 
 namespace NotationModel.C19
+open NotationModel.Facts
+
+/-! ### facts read from the Go source -/
+
+/-- the caps are positive, the blob cap is not below the manifest cap -/
+theorem caps_positive : 0 < capM ∧ 0 < capB ∧ capM ≤ capB := by decide
+
+/-- the media types the model switches on are distinct, and the notation type is none of them -/
+theorem media_types_distinct :
+    mtImage ≠ mtArtifact ∧ mtImage ≠ c19MediaTypeImageIndex ∧ mtArtifact ≠ c19MediaTypeImageIndex ∧
+    notationType ≠ mtImage ∧ notationType ≠ mtArtifact := by decide
+
+/-- position of a token in a skeleton -/
+def pos (l : List String) (s : String) : Nat := l.findIdx (· == s)
+
+/-- a token that reads content from the target -/
+def isFetch (s : String) : Bool := "call content.FetchAll".toList.isPrefixOf s.toList
+
+/-- one `case` of the switch in `signatureReferrers`: its label; the size cap precedes the only
+fetch; then the subject comparison (nil or not `content.Equal` to the whole descriptor: continue);
+then the artifact type is taken from the stated field -/
+def caseOk (c : List String × List String) (label subjectTest setType : String) : Bool :=
+  c.1 == [label] &&
+  c.2.filter isFetch == ["call content.FetchAll(ctx,target,node)"] &&
+  decide (pos c.2 "if node.Size>maxManifestSizeLimit -> return" < pos c.2 "call content.FetchAll(ctx,target,node)") &&
+  decide (pos c.2 "call content.FetchAll(ctx,target,node)" < pos c.2 subjectTest) &&
+  decide (pos c.2 subjectTest < pos c.2 setType) && decide (pos c.2 setType < c.2.length)
+
+set_option maxRecDepth 100000 in
+/-- `signatureReferrers` has exactly the two manifest cases of the model plus a default that does
+nothing, each case as `scanCase` models it (`atype` = `artifactType` of a legacy artifact manifest,
+`config.mediaType` of an image manifest); the notation type filter follows the switch -/
+theorem referrers_skeleton :
+    c19ListUsesSignatureReferrers = true ∧
+    c19ReferrerSwitchTag = "node.MediaType" ∧
+    c19ReferrerCases.length = 3 ∧
+    c19ReferrerCases.any (fun a => caseOk a "artifactspec.MediaTypeArtifactManifest"
+         "if artifact.Subject==nil||!content.Equal(*artifact.Subject,desc) -> continue"
+         "set node.ArtifactType=artifact.ArtifactType") = true ∧
+    c19ReferrerCases.any (fun b => caseOk b "ocispec.MediaTypeImageManifest"
+         "if image.Subject==nil||!content.Equal(*image.Subject,desc) -> continue"
+         "set node.ArtifactType=image.Config.MediaType") = true ∧
+    c19ReferrerCases.contains ([], []) = true ∧
+    c19ReferrerAfterSwitch.head? = some "if node.ArtifactType==ArtifactTypeNotation {" := by decide
+
+set_option maxRecDepth 100000 in
+/-- `getSignatureBlobDesc`: the media type check and the manifest cap both precede the only fetch
+(of the manifest); the exactly-one-blob check follows it and precedes the return of the blob
+descriptor -/
+theorem manifest_guards_precede_read :
+    let g := c19GetBlobDescSteps
+    g.filter isFetch = ["call content.FetchAll(ctx,fetcher,sigManifestDesc)"] ∧
+    pos g "if sigManifestDesc.MediaType!=artifactspec.MediaTypeArtifactManifest&&sigManifestDesc.MediaType!=ocispec.MediaTypeImageManifest -> return"
+      < pos g "call content.FetchAll(ctx,fetcher,sigManifestDesc)" ∧
+    pos g "if sigManifestDesc.Size>maxManifestSizeLimit -> return" < pos g "call content.FetchAll(ctx,fetcher,sigManifestDesc)" ∧
+    pos g "call content.FetchAll(ctx,fetcher,sigManifestDesc)" < pos g "if len(signatureBlobs)!=1 -> return" ∧
+    pos g "if len(signatureBlobs)!=1 -> return" < pos g "return signatureBlobs[0],nil" ∧
+    pos g "return signatureBlobs[0],nil" < g.length := by decide
+
+set_option maxRecDepth 100000 in
+/-- `FetchSignatureBlob`: `getSignatureBlobDesc`, then the blob cap, then the only fetch (of the blob) -/
+theorem blob_guard_precedes_read :
+    let f := c19FetchSteps
+    f.filter isFetch = ["call content.FetchAll(ctx,fetcher,sigBlobDesc)"] ∧
+    pos f "call c.getSignatureBlobDesc(ctx,desc)" < pos f "if sigBlobDesc.Size>maxBlobSizeLimit -> return" ∧
+    pos f "if sigBlobDesc.Size>maxBlobSizeLimit -> return" < pos f "call content.FetchAll(ctx,fetcher,sigBlobDesc)" ∧
+    pos f "call content.FetchAll(ctx,fetcher,sigBlobDesc)" < f.length := by decide
+
+/-- `PushSignature` pushes the blob, then the manifest -/
+theorem push_skeleton :
+    pos c19PushSteps "call oras.PushBytes(ctx,pusher,mediaType,blob)" <
+      pos c19PushSteps "call c.uploadSignatureManifest(ctx,subject,blobDesc,annotations)" ∧
+    pos c19PushSteps "call c.uploadSignatureManifest(ctx,subject,blobDesc,annotations)" < c19PushSteps.length := by decide
+
+/-! ### the model run is the state machine over the history -/
+
+/-- a view is good when its listing is the model's listing of the state after its history -/
+def Good (v : View) : Prop :=
+  v.lo = listObs v.mode (stateOf v.hist) v.q ∧ (v.hist.map (·.id)).Nodup
+
+theorem mem_zipWith_map {α β γ : Type} (f : α → β → γ) (g : α → β) (v : γ) :
+    ∀ (l : List α), v ∈ List.zipWith f l (l.map g) → ∃ a ∈ l, v = f a (g a) := by
+  intro l
+  induction l with
+  | nil => intro h; simp at h
+  | cons a r ih =>
+    intro h
+    simp only [List.map_cons, List.zipWith_cons_cons, List.mem_cons] at h
+    rcases h with h | h
+    · exact ⟨a, List.mem_cons_self, h⟩
+    · obtain ⟨b, hb, hv⟩ := ih h
+      exact ⟨b, List.mem_cons_of_mem _ hb, hv⟩
+
+theorem all_zip_map {α β : Type} (g : α → β) (P : α × β → Bool) :
+    ∀ (l : List α), (l.zip (l.map g)).all P = l.all (fun a => P (a, g a)) := by
+  intro l
+  induction l with
+  | nil => rfl
+  | cons a r ih => simp [List.zip_cons_cons, ih]
+
+theorem runSteps_final (mode : Index) (qs : List Desc) : ∀ (ops h : List Op),
+    (runSteps mode qs (stateOf h) ops).2 = stateOf (ops.reverse ++ h) := by
+  intro ops
+  induction ops with
+  | nil => intro h; simp [runSteps]
+  | cons o rest ih =>
+    intro h
+    simp only [runSteps]
+    have : (step (stateOf h) o).1 = stateOf (o :: h) := rfl
+    rw [this, ih (o :: h)]
+    simp
+
+theorem runSteps_length (mode : Index) (qs : List Desc) : ∀ (ops : List Op) (st : State),
+    (runSteps mode qs st ops).1.length = ops.length := by
+  intro ops
+  induction ops with
+  | nil => intro st; simp [runSteps]
+  | cons o rest ih => intro st; simp [runSteps, ih]
+
+theorem runSteps_lists (mode : Index) (qs : List Desc) : ∀ (ops : List Op) (st : State),
+    (runSteps mode qs st ops).1.all (fun so => so.lists.length == qs.length) = true := by
+  intro ops
+  induction ops with
+  | nil => intro st; simp [runSteps]
+  | cons o rest ih => intro st; simp [runSteps, ih]
+
+theorem nodup_reverse_of {l : List Nat} (h : l.Nodup) : l.reverse.Nodup := by
+  unfold List.Nodup at *
+  rw [List.pairwise_reverse]
+  exact h.imp (fun hab => fun heq => hab heq.symm)
+
+theorem nodup_suffix {h : List Op} {pre : List Op} (hn : ((pre ++ h).map (·.id)).Nodup) :
+    (h.map (·.id)).Nodup := by
+  rw [List.map_append] at hn
+  exact (List.nodup_append.1 hn).2.1
+
+theorem stepViews_run (mode : Index) (qs : List Desc) : ∀ (ops h : List Op),
+    ((ops.reverse ++ h).map (·.id)).Nodup →
+    ∀ v ∈ stepViews mode qs h ops (runSteps mode qs (stateOf h) ops).1, Good v := by
+  intro ops
+  induction ops with
+  | nil => intro h _ v hv; simp [stepViews, runSteps] at hv
+  | cons o rest ih =>
+    intro h hn v hv
+    have hn' : ((rest.reverse ++ (o :: h)).map (·.id)).Nodup := by
+      simpa [List.reverse_cons, List.append_assoc] using hn
+    simp only [runSteps, stepViews, List.mem_append] at hv
+    have hst : (step (stateOf h) o).1 = stateOf (o :: h) := rfl
+    rcases hv with hv | hv
+    · obtain ⟨q, _, hq⟩ := mem_zipWith_map _ _ v qs hv
+      subst hq
+      exact ⟨by simp [hst], nodup_suffix hn'⟩
+    · rw [hst] at hv
+      exact ih (o :: h) hn' v hv
+
+theorem stepPairs_run (mode : Index) (qs : List Desc) : ∀ (ops h : List Op),
+    (stepPairs h ops (runSteps mode qs (stateOf h) ops).1).all (fun (h', op, so) => so.ok == succeeds h' op) = true := by
+  intro ops
+  induction ops with
+  | nil => intro h; simp [stepPairs, runSteps]
+  | cons o rest ih =>
+    intro h
+    have hst : (step (stateOf h) o).1 = stateOf (o :: h) := rfl
+    simp only [runSteps, stepPairs, List.all_cons, step_ok, beq_self_eq_true, Bool.true_and]
+    rw [hst]
+    exact ih (o :: h)
+
+theorem views_run (i : Input) (hwf : wf i = true) : ∀ v ∈ views i (run i), Good v := by
+  have hn : (i.ops.map (·.id)).Nodup := by simpa [wf] using hwf
+  have hn' : ((i.ops.reverse ++ ([] : List Op)).map (·.id)).Nodup := by
+    simp only [List.append_nil, List.map_reverse]
+    exact nodup_reverse_of hn
+  intro v hv
+  simp only [views, run, List.mem_append] at hv
+  rcases hv with hv | hv
+  · exact stepViews_run i.mode i.queries i.ops [] hn' v hv
+  · have hfin := runSteps_final i.mode i.queries i.ops []
+    simp only [List.append_nil] at hfin
+    have hst : stateOf ([] : List Op) = ({} : State) := rfl
+    rw [hst] at hfin
+    by_cases hr : i.reopenOk = true
+    · simp only [hr, if_true] at hv
+      obtain ⟨q, _, hq⟩ := mem_zipWith_map _ _ v i.queries hv
+      subst hq
+      refine ⟨by simp [hfin], ?_⟩
+      simpa using hn'
+    · simp [hr] at hv
+
+/-! ### what a good view satisfies: the readable theorems, for every history -/
+
+/-- **list_exact**: after any history, a listing that is not refused yields exactly the
+signature manifests stored for that subject, in order of arrival. -/
+theorem list_exact (mode : Index) (h : List Op) (q : Desc) (hok : (listObs mode (stateOf h) q).ok = true) :
+    (listObs mode (stateOf h) q).sigs.map (·.id) = (sigsFor q h).map (·.id) := by
+  rw [listObs_spec] at hok ⊢
+  have hr : refused mode q h = false := by simpa using hok
+  simp [hr, List.map_map, Function.comp_def, sigObs]
+
+/-- the same as a statement about membership: a label is listed iff some operation of the history
+with that label stored a signature manifest of exactly `q` -/
+theorem listed_iff (mode : Index) (h : List Op) (q : Desc) (hok : (listObs mode (stateOf h) q).ok = true) (id : Nat) :
+    id ∈ (listObs mode (stateOf h) q).sigs.map (·.id) ↔ ∃ o, SigIn q o h ∧ o.id = id := by
+  rw [list_exact mode h q hok]
+  simp only [List.mem_map, mem_sigsFor]
+
+/-- **isolation**: whatever is listed for `q` was stored by an operation whose subject is exactly `q`
+(media type, digest and size) and which is a `PushSignature` or a manifest of the notation type -
+nothing of another subject, of another artifact type, or whose subject shares only some fields;
+and this holds whether the index behind `Predecessors` is exact or keyed by digest only. -/
+theorem isolation (mode : Index) (h : List Op) (q : Desc) (s : SigObs)
+    (hs : s ∈ (listObs mode (stateOf h) q).sigs) :
+    ∃ o ∈ h, o.id = s.id ∧ o.subject = some q ∧
+      (o.kind = .push ∨ (o.kind = .raw ∧ o.atype = notationType ∧ isManifestType o.mt = true)) := by
+  rw [listObs_spec] at hs
+  by_cases hr : refused mode q h = true
+  · simp [hr] at hs
+  · have hr' : refused mode q h = false := by simpa using hr
+    simp only [hr', Bool.false_eq_true, if_false] at hs
+    obtain ⟨o, ho, hso⟩ := List.mem_map.1 hs
+    have hp := sigIn_props q o h ((mem_sigsFor q o h).1 ho)
+    exact ⟨o, hp.1, by rw [← hso]; simp [sigObs], hp.2.1, hp.2.2.2⟩
+
+/-- isolation between subjects, spelled out: a signature pushed for `q'` is never listed for `q ≠ q'`
+(in particular not when `q'` differs from `q` in exactly one of media type, digest, size) -/
+theorem isolation_between_subjects (mode : Index) (h : List Op) (q q' : Desc) (hne : q ≠ q')
+    (hnd : (h.map (·.id)).Nodup) (o : Op) (ho : o ∈ h) (hsub : o.subject = some q') :
+    o.id ∉ (listObs mode (stateOf h) q).sigs.map (·.id) := by
+  intro hmem
+  obtain ⟨s, hs, hid⟩ := List.mem_map.1 hmem
+  obtain ⟨o', ho', hid', hsub', _⟩ := isolation mode h q s hs
+  have : o' = o := by
+    have hinj : ∀ (l : List Op), (l.map (·.id)).Nodup → ∀ a ∈ l, ∀ b ∈ l, a.id = b.id → a = b := by
+      intro l
+      induction l with
+      | nil => intro _ a ha; simp at ha
+      | cons x r ih =>
+        intro hn a ha b hb hab
+        simp only [List.map_cons, List.nodup_cons, List.mem_map, not_exists, not_and] at hn
+        simp only [List.mem_cons] at ha hb
+        rcases ha with ha | ha <;> rcases hb with hb | hb
+        · rw [ha, hb]
+        · subst ha; exact absurd hab.symm (hn.1 b hb)
+        · subst hb; exact absurd hab (hn.1 a ha)
+        · exact ih hn.2 a ha b hb hab
+    exact hinj h hnd o' ho' o ho (by rw [hid', hid])
+  subst this
+  rw [hsub] at hsub'
+  exact hne (Option.some.inj hsub').symm
+
+/-- the subject filter of `signatureReferrers` makes the answer independent of how exact the
+predecessor index is: whenever both listings succeed they are the same -/
+theorem list_independent_of_index (h : List Op) (q : Desc)
+    (h1 : (listObs .exact (stateOf h) q).ok = true) (h2 : (listObs .digestOnly (stateOf h) q).ok = true) :
+    listObs .exact (stateOf h) q = listObs .digestOnly (stateOf h) q := by
+  rw [listObs_spec] at h1 h2 ⊢
+  rw [listObs_spec]
+  have r1 : refused .exact q h = false := by simpa using h1
+  have r2 : refused .digestOnly q h = false := by simpa using h2
+  simp [r1, r2]
+
+/-- a listing is refused exactly when a referrer manifest of the subject exceeds the manifest
+cap; it then lists nothing, and no manifest over the cap is ever read -/
+theorem list_refused_iff (mode : Index) (h : List Op) (q : Desc) :
+    (listObs mode (stateOf h) q).ok = !refused mode q h ∧
+    ((listObs mode (stateOf h) q).ok = false → (listObs mode (stateOf h) q).sigs = []) ∧
+    (listObs mode (stateOf h) q).bigRead = false := by
+  rw [listObs_spec]
+  refine ⟨rfl, ?_, rfl⟩
+  intro hok
+  have : refused mode q h = true := by simpa using hok
+  simp [this]
+
+/-- an oversized referrer of one subject does not disturb the listing of another digest -/
+theorem refusal_is_per_subject (mode : Index) (h : List Op) (q : Desc)
+    (hnone : ∀ o ∈ h, ∀ s, o.subject = some s → s.dig ≠ q.dig) : refused mode q h = false := by
+  induction h with
+  | nil => rfl
+  | cons o h ih =>
+    simp only [refused, Bool.or_eq_false_iff]
+    refine ⟨ih (fun o' ho' => hnone o' (List.mem_cons_of_mem _ ho')), ?_⟩
+    have hm : subjMatches mode q o.subject = false := by
+      cases hs : o.subject with
+      | none => simp [subjMatches]
+      | some s =>
+        have := hnone o List.mem_cons_self s hs
+        cases mode <;> simp [subjMatches]
+        · intro heq; exact this (by rw [heq])
+        · exact this
+    simp [hm]
+
+/-- the fetch of a listed signature is what the history says (`expectFetch`) -/
+theorem listed_fetch (mode : Index) (h : List Op) (q : Desc) (hn : (h.map (·.id)).Nodup)
+    (hr : refused mode q h = false) (o : Op) (ho : o ∈ sigsFor q h) :
+    (sigObs (stateOf h) (mkManifest o)).fetch = expectFetch h o := by
+  have hs := (mem_sigsFor q o h).1 ho
+  have hp := sigIn_props q o h hs
+  simp only [sigObs, descOf, mk_mt, mk_id, mk_size]
+  exact fetchSig_spec h o hn (sigIn_created q o h hs) hp.2.2.1 (sigIn_small mode q o h hr hs)
+
+/-- **fetch_roundtrip**: after any history, a signature stored by a successful `PushSignature`
+whose envelope is within the blob cap is listed for its subject, and fetching it returns exactly
+the pushed bytes (label) and the pushed media type. -/
+theorem fetch_roundtrip (mode : Index) (h : List Op) (q : Desc) (hn : (h.map (·.id)).Nodup)
+    (hr : refused mode q h = false) (o : Op) (ho : o ∈ sigsFor q h) (hk : o.kind = .push)
+    (hsz : o.bsize ≤ capB) :
+    (sigObs (stateOf h) (mkManifest o)) ∈ (listObs mode (stateOf h) q).sigs ∧
+    (sigObs (stateOf h) (mkManifest o)).fetch =
+      { ok := true, blob := o.blob, mt := o.mt, manifestRead := true, blobRead := true } := by
+  constructor
+  · rw [listObs_spec]; simp only [hr, Bool.false_eq_true, if_false]
+    exact List.mem_map.2 ⟨o, ho, rfl⟩
+  · rw [listed_fetch mode h q hn hr o ho]
+    have hs := (mem_sigsFor q o h).1 ho
+    have hst := pushed_blob_stored o hk h (sigIn_created q o h hs)
+    have : ¬ (o.bsize > capB) := by omega
+    simp [expectFetch, opLayers, hk, hst, this]
+
+theorem mem_insertKV (kv x : KV) : ∀ (l : List KV), x ∈ l → x ∈ insertKV kv l := by
+  intro l
+  induction l with
+  | nil => intro h; simp at h
+  | cons y r ih =>
+    intro h
+    simp only [insertKV]
+    by_cases hlt : kv.k < y.k
+    · simp only [hlt, if_true]; exact List.mem_cons_of_mem _ h
+    · simp only [hlt, if_false]
+      rcases List.mem_cons.1 h with h | h
+      · rw [h]; exact List.mem_cons_self
+      · exact List.mem_cons_of_mem _ (ih h)
+
+/-- **annotations_superset**: every annotation handed to `PushSignature` (or written into a raw
+manifest) is on the stored manifest, hence on the listed descriptor; the packer may add `created`. -/
+theorem annotations_superset (o : Op) (kv : KV) (hkv : kv ∈ o.annos) : kv ∈ (mkManifest o).annos := by
+  unfold mkManifest
+  cases o.kind <;> simp only []
+  · unfold ensureCreated
+    split
+    · exact hkv
+    · exact mem_insertKV _ _ _ hkv
+  · exact hkv
+  · exact hkv
+
+/-- **hostile_refused_before_use** (listed manifests): a listed manifest that does not carry exactly
+one blob, or whose blob is declared larger than the cap, is refused and no blob is read. -/
+theorem hostile_refused_before_use (h : List Op) (o : Op) (hh : hostileLayers (opLayers o) = true) :
+    (expectFetch h o).ok = false ∧ (expectFetch h o).manifestRead = true ∧ (expectFetch h o).blobRead = false := by
+  unfold expectFetch
+  split
+  · rename_i l heq
+    simp only [hostileLayers, heq, List.length_singleton, bne_self_eq_false, Bool.false_or, List.any_cons,
+      List.any_nil, Bool.or_false, decide_eq_true_eq] at hh
+    simp [hh, refuse]
+  · simp [refuse]
+
+/-- **hostile_refused_before_use** (descriptors): a descriptor of another media type, or declaring
+more than the manifest cap, is refused before anything is read - in any state. -/
+theorem descriptor_refused_before_read (st : State) (d : Desc)
+    (hd : isManifestType d.mt = false ∨ d.size > capM) :
+    fetchSig st d = refuse false false := by
+  unfold fetchSig
+  rcases hd with hd | hd
+  · have : (d.mt != mtArtifact && d.mt != mtImage) = true := by
+      simp only [isManifestType, Bool.or_eq_false_iff] at hd
+      simp [bne, hd.1, hd.2]
+    simp [this]
+  · by_cases hmt : (d.mt != mtArtifact && d.mt != mtImage) = true
+    · simp [hmt]
+    · simp [hmt, hd]
+
+/-- in no state does `FetchSignatureBlob` read a blob that is declared larger than the cap, or
+read anything for a manifest that does not have exactly one blob -/
+theorem blob_read_implies_single_small_layer (st : State) (ls : List Layer)
+    (hread : (fetchLayers st ls).blobRead = true) : ∃ l, ls = [l] ∧ l.size ≤ capB := by
+  unfold fetchLayers at hread
+  split at hread
+  · rename_i l
+    refine ⟨l, rfl, ?_⟩
+    by_cases hb : l.size > capB
+    · simp [hb, refuse] at hread
+    · omega
+  · simp [refuse] at hread
+
+/-! ### the whole property -/
+
+theorem probeTarget_spec (d : Desc) : ∀ (h : List Op) (o : Op), probeTarget h d = some o →
+    CreatedIn o h ∧ o.id = d.dig ∧ opMt o = d.mt ∧ o.msize = d.size := by
+  intro h
+  induction h with
+  | nil => intro o ho; simp [probeTarget] at ho
+  | cons x h ih =>
+    intro o ho
+    simp only [probeTarget] at ho
+    by_cases hc : (creates h x && x.id == d.dig) = true
+    · simp only [hc, if_true] at ho
+      by_cases hm : (opMt x == d.mt && x.msize == d.size) = true
+      · simp only [hm, if_true, Option.some.injEq] at ho
+        subst ho
+        simp only [Bool.and_eq_true, beq_iff_eq] at hc hm
+        exact ⟨Or.inl ⟨rfl, hc.1⟩, hc.2, hm.1, hm.2⟩
+      · simp [hm] at ho
+    · simp only [hc] at ho
+      obtain ⟨h1, h2⟩ := ih o ho
+      exact ⟨Or.inr h1, h2⟩
+
+/-- **C19, the whole property**: every clause of `Holds` is true of the model's behaviour, for
+every well-formed input (any number of operations, subjects, queries and probes). -/
+theorem model_holds (i : Input) (hwf : wf i = true) : Holds i (run i) = true := by
+  have hgood := views_run i hwf
+  have hn : (i.ops.map (·.id)).Nodup := by simpa [wf] using hwf
+  have hnr : (i.ops.reverse.map (·.id)).Nodup := by
+    rw [List.map_reverse]; exact nodup_reverse_of hn
+  have hfin : (runSteps i.mode i.queries {} i.ops).2 = stateOf i.ops.reverse := by
+    have := runSteps_final i.mode i.queries i.ops []
+    simpa [stateOf] using this
+  -- per-view facts
+  have hview : ∀ (f : View → Bool),
+      (∀ mode h q, (h.map (·.id)).Nodup → f ⟨mode, h, q, listObs mode (stateOf h) q⟩ = true) →
+      (views i (run i)).all f = true := by
+    intro f hf
+    apply List.all_eq_true.2
+    intro v hv
+    obtain ⟨hlo, hnd⟩ := hgood v hv
+    have := hf v.mode v.hist v.q hnd
+    rw [← hlo] at this
+    exact this
+  -- the listed signatures of a non-refused view
+  have hpaired : ∀ mode h q, refused mode q h = false → ∀ (P : Op × SigObs → Bool),
+      (paired ⟨mode, h, q, listObs mode (stateOf h) q⟩).all P =
+        (sigsFor q h).all (fun o => P (o, sigObs (stateOf h) (mkManifest o))) := by
+    intro mode h q hr P
+    simp only [paired]
+    rw [listObs_spec]
+    simp only [hr, Bool.false_eq_true, if_false]
+    exact all_zip_map _ P _
+  unfold Holds clauses
+  simp only [Clauses.holds_cons, Clauses.holds_nil, Bool.and_true, Bool.and_eq_true]
+  refine ⟨hwf, ?shape, ?push, ?exact, ?iso, ?refused, ?big, ?round, ?pushed, ?annos, ?hostile, ?probe1, ?probe2, ?reopen⟩
+  case shape =>
+    simp only [shapeOk, run, runSteps_length, runSteps_lists, List.length_map, beq_self_eq_true, Bool.true_and,
+      Bool.and_true]
+    by_cases hr : i.reopenOk = true <;> simp [hr]
+  case push =>
+    have := stepPairs_run i.mode i.queries i.ops []
+    simpa [run, stateOf] using this
+  case exact =>
+    apply hview
+    intro mode h q _
+    by_cases hok : (listObs mode (stateOf h) q).ok = true
+    · simp [hok, list_exact mode h q hok]
+    · simp [hok]
+  case iso =>
+    apply hview
+    intro mode h q _
+    apply List.all_eq_true.2
+    intro s hs
+    obtain ⟨o, ho, hid, hsub, hkind⟩ := isolation mode h q s hs
+    apply List.any_eq_true.2
+    refine ⟨o, ho, ?_⟩
+    rcases hkind with hk | ⟨hk, hat, hmt⟩
+    · simp [hid, hsub, hk]
+    · simp [hid, hsub, hk, hat, hmt]
+  case refused =>
+    apply hview
+    intro mode h q _
+    obtain ⟨h1, h2, _⟩ := list_refused_iff mode h q
+    by_cases hok : (listObs mode (stateOf h) q).ok = true
+    · simp [h1]; rw [h1] at hok; simp at hok; simp [hok]
+    · have hok' : (listObs mode (stateOf h) q).ok = false := by simpa using hok
+      simp [h1, h2 hok']
+  case big =>
+    apply hview
+    intro mode h q _
+    simp [(list_refused_iff mode h q).2.2]
+  case round =>
+    apply hview
+    intro mode h q hnd
+    by_cases hr : refused mode q h = true
+    · simp [(list_refused_iff mode h q).1, hr]
+    · have hr' : refused mode q h = false := by simpa using hr
+      simp only [Bool.or_eq_true]
+      right
+      rw [hpaired mode h q hr']
+      apply List.all_eq_true.2
+      intro o ho
+      dsimp only
+      rw [listed_fetch mode h q hnd hr' o ho]
+      cases hl : opLayers o with
+      | nil => rfl
+      | cons l r =>
+        cases r with
+        | cons l2 r2 => rfl
+        | nil =>
+          by_cases hsz : l.size > capB
+          · have : ¬ (l.size ≤ capB) := by omega
+            simp [this]
+          · by_cases hst : storedSize h l.blob = some l.size
+            · simp [expectFetch, hl, hsz, hst]
+            · simp [hst]
+  case pushed =>
+    apply hview
+    intro mode h q hnd
+    by_cases hr : refused mode q h = true
+    · simp [(list_refused_iff mode h q).1, hr]
+    · have hr' : refused mode q h = false := by simpa using hr
+      simp only [Bool.or_eq_true]
+      right
+      rw [hpaired mode h q hr']
+      apply List.all_eq_true.2
+      intro o ho
+      by_cases hk : o.kind = .push
+      · by_cases hsz : o.bsize ≤ capB
+        · have := (fetch_roundtrip mode h q hnd hr' o ho hk hsz).2
+          simp [this]
+        · simp [hsz]
+      · have : (o.kind == Kind.push) = false := by simpa using hk
+        simp [this]
+  case annos =>
+    apply hview
+    intro mode h q hnd
+    by_cases hr : refused mode q h = true
+    · simp [(list_refused_iff mode h q).1, hr]
+    · have hr' : refused mode q h = false := by simpa using hr
+      simp only [Bool.or_eq_true]
+      right
+      rw [hpaired mode h q hr']
+      apply List.all_eq_true.2
+      intro o _
+      apply List.all_eq_true.2
+      intro kv hkv
+      simpa [sigObs] using annotations_superset o kv hkv
+  case hostile =>
+    apply hview
+    intro mode h q hnd
+    by_cases hr : refused mode q h = true
+    · simp [(list_refused_iff mode h q).1, hr]
+    · have hr' : refused mode q h = false := by simpa using hr
+      simp only [Bool.or_eq_true]
+      right
+      rw [hpaired mode h q hr']
+      apply List.all_eq_true.2
+      intro o ho
+      by_cases hh : hostileLayers (opLayers o) = true
+      · rw [listed_fetch mode h q hnd hr' o ho]
+        obtain ⟨h1, h2, h3⟩ := hostile_refused_before_use h o hh
+        simp [h1, h2, h3]
+      · simp [hh]
+  case probe1 =>
+    simp only [run, all_zip_map]
+    apply List.all_eq_true.2
+    intro d _
+    by_cases hd : isManifestType d.mt = false ∨ d.size > capM
+    · rw [descriptor_refused_before_read _ d hd]; simp [refuse]
+    · have h1 : isManifestType d.mt = true := by
+        cases hh : isManifestType d.mt <;> simp [hh] at hd ⊢
+      have h2 : ¬ d.size > capM := fun hh => hd (Or.inr hh)
+      simp [h1, h2]
+  case probe2 =>
+    simp only [run, all_zip_map, hfin]
+    apply List.all_eq_true.2
+    intro d _
+    by_cases hd : (isManifestType d.mt && decide (d.size ≤ capM)) = true
+    · simp only [hd, Bool.not_true, Bool.false_or]
+      cases hp : probeTarget i.ops.reverse d with
+      | none => rfl
+      | some o =>
+        obtain ⟨hc, hid, hmt, hsz⟩ := probeTarget_spec d _ o hp
+        simp only [Bool.and_eq_true, decide_eq_true_eq] at hd
+        have := fetchSig_spec i.ops.reverse o hnr hc (by rw [hmt]; exact hd.1) (by rw [hsz]; exact hd.2)
+        rw [hmt, hid, hsz] at this
+        simp [this]
+    · simp [hd]
+  case reopen => rfl
+
+/-! ### non-vacuity -/
+
+def s0 : Desc := ⟨mtImage, 0, 421⟩
+def s0' : Desc := ⟨mtImage, 0, 422⟩      -- same digest, other size
+def s1 : Desc := ⟨mtImage, 1, 422⟩
+
+def pushOp (id : Nat) (s : Desc) (blob : Nat) : Op :=
+  { kind := .push, id := id, subject := some s, mt := "application/jose+json", blob := blob, bsize := 100,
+    msize := 600, atype := "", topType := "", layers := [], annos := [⟨"a", "1"⟩] }
+
+def rawOp (id : Nat) (mt : String) (s : Desc) (atype : String) (layers : List Layer) (msize : Nat := 500) : Op :=
+  { kind := .raw, id := id, subject := some s, mt := mt, blob := 0, bsize := 0, msize := msize, atype := atype,
+    topType := "", layers := layers, annos := [] }
+
+/-- two subjects; a signature each; a notation manifest for a subject that shares only the digest
+with `s0`; another artifact type on `s0`; a hostile two-layer signature manifest on `s0` -/
+def demo : Input :=
+  { mode := .digestOnly,
+    ops := [pushOp 0 s0 1, pushOp 1 s1 2,
+            rawOp 2 mtImage s0' notationType [⟨"application/cose", 1, 100⟩],
+            rawOp 3 mtArtifact s0 "application/vnd.example.sbom" [⟨"application/cose", 2, 100⟩],
+            rawOp 4 mtArtifact s0 notationType [⟨"application/cose", 1, 100⟩, ⟨"application/cose", 2, 100⟩]],
+    queries := [s0, s1], probes := [⟨mtImage, 0, 600⟩, ⟨mtImage, 0, capM + 1⟩], reopenOk := true }
+
+example : wf demo = true := by decide
+
+/-- the final listings: `s0` has its pushed signature (fetchable, with the `created` annotation
+added) and the hostile manifest (refused, no blob read); `s1` has exactly its own -/
+example : (run demo).reopened =
+    [ { ok := true, bigRead := false,
+        sigs := [ { id := 0, annos := [⟨"a", "1"⟩, ⟨createdKey, timeMark⟩],
+                    fetch := ⟨true, 1, "application/jose+json", true, true⟩ },
+                  { id := 4, annos := [], fetch := ⟨false, 0, "", true, false⟩ } ] },
+      { ok := true, bigRead := false,
+        sigs := [ { id := 1, annos := [⟨"a", "1"⟩, ⟨createdKey, timeMark⟩],
+                    fetch := ⟨true, 2, "application/jose+json", true, true⟩ } ] } ] := by decide
+
+example : (run demo).probes = [⟨true, 1, "application/jose+json", true, true⟩, ⟨false, 0, "", false, false⟩] := by decide
+
+example : Holds demo (run demo) = true := by decide
+
+/-- an oversized referrer refuses the listing of its subject only -/
+example : ((run { demo with ops := demo.ops ++ [rawOp 5 mtImage s0 "x/y" [] (capM + 1)] }).reopened.map (·.ok)) =
+    [false, true] := by decide
+
+def goodSig0 : SigObs :=
+  { id := 0, annos := [⟨"a", "1"⟩, ⟨createdKey, timeMark⟩], fetch := ⟨true, 1, "application/jose+json", true, true⟩ }
+def okList (sigs : List SigObs) : ListObs := { ok := true, sigs := sigs, bigRead := false }
+def stepOf (sigs : List SigObs) : StepObs := { ok := true, lists := [okList sigs] }
+
+def demo2 : Input :=
+  { mode := .digestOnly,
+    ops := [pushOp 0 s0 1, rawOp 1 mtImage s0' notationType [⟨"application/cose", 1, 100⟩]],
+    queries := [s0], probes := [], reopenOk := false }
+
+example : run demo2 =
+    { steps := [stepOf [goodSig0], stepOf [goodSig0]], probes := [], reopened := [], reopenSame := true } := by decide
+
+/-- a wrong observation is rejected: the manifest whose subject only shares the digest listed for `s0` -/
+example : Holds demo2
+    { steps := [stepOf [goodSig0], stepOf [goodSig0, { id := 1, annos := [], fetch := ⟨true, 1, "application/cose", true, true⟩ }]],
+      probes := [], reopened := [], reopenSame := true } = false := by decide
+
+/-- and so is a fetch that returns other bytes than were pushed -/
+example : Holds demo2
+    { steps := [stepOf [{ goodSig0 with fetch := ⟨true, 7, "application/jose+json", true, true⟩ }], stepOf [goodSig0]],
+      probes := [], reopened := [], reopenSame := true } = false := by decide
+
+/-- and a listing that misses a pushed signature -/
+example : Holds demo2
+    { steps := [stepOf [goodSig0], stepOf []], probes := [], reopened := [], reopenSame := true } = false := by decide
 
 end NotationModel.C19
